@@ -346,8 +346,32 @@ def class_words(cls):
             src = inspect.getsource(k)
         except Exception:
             continue
+        # the string constants of the class's own source (its docstrings excluded)
+        try:
+            import ast
+            import textwrap
+
+            tree = ast.parse(textwrap.dedent(src))
+            doc = {id(n.value) for n in ast.walk(tree) if isinstance(n, ast.Expr) and isinstance(n.value, ast.Constant)}
+            for n in ast.walk(tree):
+                if isinstance(n, ast.Constant) and isinstance(n.value, str) and id(n) not in doc and len(n.value) <= 80:
+                    for w in re.findall(r"[A-Za-z]{2,9}", n.value):
+                        words.add(w)
+                        words.add(w.lower())
+        except Exception:
+            pass
         for ident in set(re.findall(r"[A-Za-z_][A-Za-z_0-9]*", src)):
             obj = getattr(vmod, ident, None)
+            if inspect.isclass(obj) and getattr(obj, "__module__", "") == "univers.versions" and obj not in cls.__mro__ \
+                    and not issubclass(cls, obj) and ("cw:" + obj.__name__) not in _MINED and not _MINED.get("busy:" + obj.__name__):
+                # a class this one wraps (OpensslVersion -> LegacyOpensslVersion, SemverVersion)
+                _MINED["busy:" + cls.__name__] = True
+                words |= set(class_words(obj))
+                _MINED["busy:" + cls.__name__] = False
+                continue
+            if inspect.isclass(obj) and ("cw:" + getattr(obj, "__name__", "")) in _MINED:
+                words |= set(_MINED["cw:" + obj.__name__])
+                continue
             mod = obj if inspect.ismodule(obj) else sys.modules.get(getattr(obj, "__module__", None) or "")
             f = getattr(mod, "__file__", None) if mod else None
             if f and f.startswith("/repo/src/univers/") and not f.endswith("/versions.py"):
@@ -357,42 +381,47 @@ def class_words(cls):
 
 
 def mined_pairs(r, cls, cap):
-    """(base, base+suffix) version texts, one accepted suffix per mined word; the words of the class's own modules first"""
+    """(base, base+suffix) version texts, one accepted suffix per mined word and base; the words of the class's own
+    source (and of the modules and classes it refers to) first"""
     import re
 
-    sfx = mined_suffixes(cls)
-    if not sfx:
+    if not mined_suffixes(cls):
         return []
-    base = _MINED["base:" + cls.__name__]
     by_word = {}
-    for x in sfx:
-        by_word.setdefault(re.sub(r"[^A-Za-z]", "", x), []).append(x)
-    own = [w for w in class_words(cls) if w in by_word and len(w) > 1]
-    rest = [w for w in by_word if w not in set(own)]
+    for base, x in _MINED["bybase:" + cls.__name__]:
+        by_word.setdefault((base, re.sub(r"[^A-Za-z]", "", x)), []).append(x)
+    ownset = set(w for w in class_words(cls) if len(w) > 1)
+    own = [k for k in by_word if k[1] in ownset]
+    rest = [k for k in by_word if k[1] not in ownset]
     r.shuffle(rest)
     out = []
-    for w in (own + rest)[:cap]:
-        out.append((base, base + r.choice(by_word[w])))
-    return out
+    for base, w in own:
+        # every accepted spelling of a word of the class's own source (the separator matters: "-fips" is not "~fips")
+        for x in by_word[(base, w)]:
+            if not x[-1:].isdigit() or r.random() < 0.25:
+                out.append((base, base + x))
+    for base, w in rest[: max(0, cap - len(own))]:
+        out.append((base, base + r.choice(by_word[(base, w)])))
+    return out[: cap * 3]
 
 
 def mined_suffixes(cls):
-    """suffixes sep+word[+digit] built from mined_words() that cls accepts after a plain base version"""
+    """suffixes sep+word[+digit] built from mined_words() that cls accepts after a plain base version
+    (for each base text the class accepts: a class may have several grammars, e.g. openssl before and after 3.0)"""
     key = cls.__name__
     if key in _MINED:
         return _MINED[key]
-    out = []
+    out, by_base = [], []
     bases = ["1.2.3", "1.2", "1", "3.0.1", "1.1.1"]
-    base = None
+    okb = []
     for b in bases:
         try:
             cls(b)
-            base = b
-            break
+            okb.append(b)
         except Exception:
             continue
-    _MINED["base:" + key] = base
-    if base is not None:
+    okb = okb[:1] + [b for b in okb[1:] if b in ("3.0.1", "1.1.1")][:1] if okb else []
+    for base in okb:
         for w in mined_words():
             for sep in ("", ".", "-", "_", "+", "~"):
                 for tail in ("", "1"):
@@ -401,9 +430,14 @@ def mined_suffixes(cls):
                         cls(base + sfx)
                     except BaseException:
                         continue
-                    out.append(sfx)
+                    if base == okb[0]:
+                        out.append(sfx)
+                    by_base.append((base, sfx))
+    _MINED["base:" + key] = okb[0] if okb else None
+    _MINED["bybase:" + key] = by_base
     _MINED[key] = out
     return out
+
 
 def neighbours(r, cls, s, k=3):
     """up to k valid single-edit neighbours of the version text s (number +-1, x10, leading zero,
